@@ -37,8 +37,12 @@ def rule_pitchtables(ctx):
             yield o
     f = ctx.program.func("chord.pitch_class_to_semitone", R)
     s = ctx.S.get(f.qual)
-    need(len(s.returns) == 1, R, "pitch_class_to_semitone: single return expected")
-    t = s.returns[0].term
+    main = [r for r in s.returns if not is_lit(r.term)]
+    need(len(main) == 1, R, "pitch_class_to_semitone: single computed return expected")
+    lits_ok = all(isinstance(lit(r.term), (int, float)) and 0 <= lit(r.term) < 12 for r in s.returns if is_lit(r.term))
+    if not lits_ok:
+        yield ob(R, f, "chord.pitch_class_to_semitone:mod12", False, "a literal return lies outside 0..11")
+    t = main[0].term
     mod = t.op == "bin" and t.a[0] == "%" and tm.is_const(t.a[2], 12)
     yield ob(R, f, "chord.pitch_class_to_semitone:mod12", mod, "the result is reduced mod 12 (B# == C, Cb == B)")
     body = t.a[1] if mod else t
@@ -152,6 +156,25 @@ def rule_keydiffonly(ctx):
                     okk = any(p.op == "bin" and p.a[0] == "%" and p.a[1] is x and tm.is_const(p.a[2], 12) for p in tm.walk(c))
                 if not okk:
                     bad.append(tm.show(x, 2))
+    ret_lit = all(is_lit(r.term) for r in s.returns)
+    if bad or n < 6 or not ret_lit:
+        # decide the clause itself on the evaluated decision table: transposing both keys by t leaves the score unchanged
+        tab = c04.key_decision_table(ctx)
+        if tab is None:
+            raise AnalysisError(R, "weighted_score: key numbers are used outside ==, `is None`, (est - ref) % 12 and the decision table cannot be evaluated")
+        viol = None
+        for (rk, rm, ek, em), v in tab.items():
+            if rk is None or ek is None:
+                continue
+            for t in range(1, 12):
+                if tab[((rk + t) % 12, rm, (ek + t) % 12, em)] != v:
+                    viol = ((rk, rm), (ek, em), t, v, tab[((rk + t) % 12, rm, (ek + t) % 12, em)])
+                    break
+            if viol:
+                break
+        yield ob(R, f, "key.weighted_score:key-number-uses", viol is None, "evaluated on all %d key pairs: transposing both keys by any number of semitones leaves the score unchanged" % len(tab) if viol is None else "weighted_score(ref=%s, est=%s) = %s but after transposing both keys by %d semitones it is %s" % (viol[0], viol[1], viol[3], viol[2], viol[4]))
+        yield ob(R, f, "key.weighted_score:score-independent-of-number", viol is None, "the score depends on the key numbers only through their difference mod 12 (decision table)")
+        return
     yield ob(R, f, "key.weighted_score:key-number-uses", not bad and n >= 6, "%d uses of a key number: equality, `is None`, or (est - ref) %% 12 == const" % n if not bad else "key number used by %s" % sorted(set(bad))[:3])
     ret_lit = all(is_lit(r.term) for r in s.returns)
     yield ob(R, f, "key.weighted_score:score-independent-of-number", ret_lit, "returned scores are constants (they depend on the keys only through the tests above)")
